@@ -334,7 +334,7 @@ def _body(acc):
 
 def _run_hyp(arg):
     seed_value, n, max_leaves = arg
-    acc = Acc()
+    acc = runner.track(Acc())
     runner.drive(cases(max_leaves), _body(acc), n, seed_value)
     return acc
 
